@@ -1716,7 +1716,8 @@ class CPF( dfa ):
             result	       += UINT.produce( item.type_id )
             if item.type_id in cls.ITEM_PARSERS:
                 itmprs		= cls.ITEM_PARSERS[item.type_id] # eg 'unconnected_send', 'communications_service'
-                item.input	= bytearray( itmprs.produce( item[itmprs.__name__] ))
+                if itmprs.__name__ in item: # a zero-length item (of any type) parses to no payload
+                    item.input	= bytearray( itmprs.produce( item[itmprs.__name__] ))
             if 'input' in item:
                 result	       += UINT.produce( len( item.input ))
                 result	       += octets_encode( item.input )
